@@ -616,6 +616,15 @@ func (rc *RefClient) processEvent(f *Frame) {
 		rc.gc(f.T, nil)
 		return
 	}
+	if len(rc.pool) > 0 {
+		// the events the gateway flushes after a get response come as one run,
+		// for held and not held resources alike: the resources of that get stay
+		// available until the run of event frames ends
+		rc.poolKeep = map[string]*RCRes{}
+		for k, v := range rc.pool {
+			rc.poolKeep[k] = v
+		}
+	}
 	rc.Delivered[rid] = append(rc.Delivered[rid], DelivEv{T: f.T, Event: ev, Data: f.Data})
 	switch ev {
 	case "change":
